@@ -13,7 +13,7 @@ os.makedirs("/root/scratch", exist_ok=True)
 cmd = ["/venv/bin/python", "-m", "pytest", "-q", "-p", "no:cacheprovider", "--timeout=1800",
        "--continue-on-collection-errors", f"--junitxml={out}", "-n", workers] + args
 t0 = time.time()
-env = dict(os.environ); env.pop("PYTHONPATH", None); env.pop("QUIMB_VERIF", None)
+env = dict(os.environ); env.pop("PYTHONPATH", None); env.pop("QUIMB_VERIF", None); env.setdefault("OMP_NUM_THREADS", "1")
 p = subprocess.run(cmd, cwd="/repo", env=env, capture_output=True, text=True)
 print(p.stdout[-1500:])
 base = json.load(open("/root/.vp/BASELINE.json"))
